@@ -25,19 +25,22 @@
 (*   OwnedDrop = FALSE  a dropping thread frees a node when it SEES the    *)
 (*                      count at one instead of when ITS decrement reaches *)
 (*                      zero                                               *)
+(*   StackScratch = FALSE  a C jet keeps its scratch buffer in static      *)
+(*                      storage instead of on the caller's stack           *)
 (***************************************************************************)
 EXTENDS Integers, Sequences, FiniteSets, SequencesExt, TLC
 
 CONSTANTS Thread,        \* set of threads
           MaxOps,        \* operations per thread
-          AtomicId, OwnedDrop
+          AtomicId, OwnedDrop, StackScratch
 
 \* shared immutable nodes: a root with two children (what the iterative destructor walks)
 Node == {"root", "left", "right"}
 Children(o) == IF o = "root" THEN {"left", "right"} ELSE {}
 \* operation kinds.  "infer" works in the thread's own context and draws names; "use" reads a shared node
 \* through a reference the thread holds; "clone" / "drop" change the thread's references.
-OpKind == {"infer", "use", "clone", "drop"}
+\* "cjet" runs a C jet that copies its input into a scratch buffer and then hashes the buffer (two steps)
+OpKind == {"infer", "use", "clone", "drop", "cjet"}
 Result(kind) == IF kind = "infer" THEN "typed" ELSE IF kind = "use" THEN "value-of-root" ELSE "done"
 
 VARIABLES
@@ -50,8 +53,9 @@ VARIABLES
   rc, freed, \* strong counts of the shared nodes; set of nodes whose memory was released (with multiplicity check)
   refs,      \* refs[t]: number of references to root that t holds
   pending,   \* pending[t]: nodes t still has to release (its iterative destructor's stack)
+  scratch,   \* scratch[b]: content of scratch buffer b (one per thread, or the single static one)
   log        \* log[t]: results of finished operations
-vars == <<todo, pc, nextId, loaded, names, tls, mutex, rc, freed, refs, pending, log>>
+vars == <<todo, pc, nextId, loaded, names, tls, mutex, rc, freed, refs, pending, scratch, log>>
 
 OpSeqs == UNION {[1..n -> OpKind] : n \in 0..MaxOps}
 Init ==
@@ -66,6 +70,7 @@ Init ==
   /\ freed = <<>>
   /\ refs = [t \in Thread |-> 1]
   /\ pending = [t \in Thread |-> <<>>]
+  /\ scratch = [b \in Thread \cup {"static"} |-> "empty"]
   /\ log = [t \in Thread |-> <<>>]
 
 Cur(t) == Head(todo[t])
@@ -78,44 +83,54 @@ InferLock(t) == /\ pc[t] = "idle" /\ todo[t] # <<>> /\ Cur(t) = "infer"
                 /\ mutex[t] = "free" /\ mutex' = [mutex EXCEPT ![t] = t]
                 /\ tls' = [tls EXCEPT ![t] = TRUE]
                 /\ pc' = [pc EXCEPT ![t] = "draw"]
-                /\ UNCHANGED <<todo, nextId, loaded, names, rc, freed, refs, pending, log>>
+                /\ UNCHANGED <<todo, nextId, loaded, names, rc, freed, refs, pending, log, scratch>>
 DrawAtomic(t) == /\ AtomicId /\ pc[t] = "draw"
                  /\ names' = [names EXCEPT ![t] = @ \cup {nextId}]
                  /\ nextId' = nextId + 1
                  /\ pc' = [pc EXCEPT ![t] = "unlock"]
-                 /\ UNCHANGED <<todo, loaded, tls, mutex, rc, freed, refs, pending, log>>
+                 /\ UNCHANGED <<todo, loaded, tls, mutex, rc, freed, refs, pending, log, scratch>>
 DrawLoad(t) == /\ ~AtomicId /\ pc[t] = "draw"
                /\ loaded' = [loaded EXCEPT ![t] = nextId]
                /\ pc' = [pc EXCEPT ![t] = "store"]
-               /\ UNCHANGED <<todo, nextId, names, tls, mutex, rc, freed, refs, pending, log>>
+               /\ UNCHANGED <<todo, nextId, names, tls, mutex, rc, freed, refs, pending, log, scratch>>
 DrawStore(t) == /\ ~AtomicId /\ pc[t] = "store"
                 /\ names' = [names EXCEPT ![t] = @ \cup {loaded[t]}]
                 /\ nextId' = loaded[t] + 1
                 /\ pc' = [pc EXCEPT ![t] = "unlock"]
-                /\ UNCHANGED <<todo, loaded, tls, mutex, rc, freed, refs, pending, log>>
+                /\ UNCHANGED <<todo, loaded, tls, mutex, rc, freed, refs, pending, log, scratch>>
 InferUnlock(t) == /\ pc[t] = "unlock" /\ mutex[t] = t
                   /\ mutex' = [mutex EXCEPT ![t] = "free"]
                   /\ Finish(t, IF tls[t] THEN "typed" ELSE "tls-missing")
-                  /\ UNCHANGED <<nextId, loaded, names, tls, rc, freed, refs, pending>>
+                  /\ UNCHANGED <<nextId, loaded, names, tls, rc, freed, refs, pending, scratch>>
 
 (* ---- use: read the shared root through a held reference ---- *)
 IsFreed(o) == \E k \in 1..Len(freed) : freed[k] = o
 Use(t) == /\ pc[t] = "idle" /\ todo[t] # <<>> /\ Cur(t) = "use"
           /\ Finish(t, IF refs[t] = 0 THEN "done"            \* nothing to read: the operation is a no-op
                        ELSE IF IsFreed("root") \/ IsFreed("left") \/ IsFreed("right") THEN "garbage" ELSE "value-of-root")
-          /\ UNCHANGED <<nextId, loaded, names, tls, mutex, rc, freed, refs, pending>>
+          /\ UNCHANGED <<nextId, loaded, names, tls, mutex, rc, freed, refs, pending, scratch>>
 UseResult(t_refs) == IF t_refs = 0 THEN "done" ELSE "value-of-root"
+
+(* ---- cjet: copy the input into the scratch buffer, then hash what the buffer holds ---- *)
+Buf(t) == IF StackScratch THEN t ELSE "static"
+CjetCopy(t) == /\ pc[t] = "idle" /\ todo[t] # <<>> /\ Cur(t) = "cjet"
+               /\ scratch' = [scratch EXCEPT ![Buf(t)] = t]          \* every thread hashes its own data
+               /\ pc' = [pc EXCEPT ![t] = "hash"]
+               /\ UNCHANGED <<todo, nextId, loaded, names, tls, mutex, rc, freed, refs, pending, log>>
+CjetHash(t) == /\ pc[t] = "hash"
+               /\ Finish(t, IF scratch[Buf(t)] = t THEN "done" ELSE "hash-of-foreign-data")
+               /\ UNCHANGED <<nextId, loaded, names, tls, mutex, rc, freed, refs, pending, scratch>>
 
 (* ---- clone / drop of the shared root ---- *)
 Clone(t) == /\ pc[t] = "idle" /\ todo[t] # <<>> /\ Cur(t) = "clone"
             /\ IF refs[t] > 0
                THEN rc' = [rc EXCEPT !["root"] = @ + 1] /\ refs' = [refs EXCEPT ![t] = @ + 1]
-               ELSE UNCHANGED <<rc, refs>>
+               ELSE UNCHANGED <<rc, refs, scratch>>
             /\ Finish(t, "done")
-            /\ UNCHANGED <<nextId, loaded, names, tls, mutex, freed, pending>>
+            /\ UNCHANGED <<nextId, loaded, names, tls, mutex, freed, pending, scratch>>
 \* drop, first step: give up the reference
 DropDec(t) == /\ pc[t] = "idle" /\ todo[t] # <<>> /\ Cur(t) = "drop"
-              /\ IF refs[t] = 0 THEN Finish(t, "done") /\ UNCHANGED <<rc, refs, pending, freed>>
+              /\ IF refs[t] = 0 THEN Finish(t, "done") /\ UNCHANGED <<rc, refs, pending, freed, scratch>>
                  ELSE /\ refs' = [refs EXCEPT ![t] = @ - 1]
                       /\ IF OwnedDrop
                          THEN \* Arc::into_inner: decrement, and own the node iff this decrement reached zero
@@ -124,8 +139,8 @@ DropDec(t) == /\ pc[t] = "idle" /\ todo[t] # <<>> /\ Cur(t) = "drop"
                          ELSE \* deviation: look at the count first, act later
                               /\ pending' = [pending EXCEPT ![t] = IF rc["root"] = 1 THEN <<"root">> ELSE <<"dec">>]
                               /\ rc' = rc
-                      /\ pc' = [pc EXCEPT ![t] = "release"] /\ UNCHANGED <<todo, log, freed>>
-              /\ UNCHANGED <<nextId, loaded, names, tls, mutex>>
+                      /\ pc' = [pc EXCEPT ![t] = "release"] /\ UNCHANGED <<todo, log, freed, scratch>>
+              /\ UNCHANGED <<nextId, loaded, names, tls, mutex, scratch>>
 \* the iterative destructor: release one node from the stack, push the children whose count it brought to zero
 Release(t) == /\ pc[t] = "release" /\ pending[t] # <<>>
               /\ LET o == Head(pending[t]) IN
@@ -134,13 +149,13 @@ Release(t) == /\ pc[t] = "release" /\ pending[t] # <<>>
                  ELSE /\ freed' = Append(freed, o)
                       /\ rc' = [c \in Node |-> IF c \in Children(o) THEN rc[c] - 1 ELSE IF c = o /\ ~OwnedDrop THEN 0 ELSE rc[c]]
                       /\ pending' = [pending EXCEPT ![t] = Tail(@) \o SetToSeq({c \in Children(o) : rc[c] = 1})]
-              /\ UNCHANGED <<todo, pc, nextId, loaded, names, tls, mutex, refs, log>>
+              /\ UNCHANGED <<todo, pc, nextId, loaded, names, tls, mutex, refs, log, scratch>>
 DropDone(t) == /\ pc[t] = "release" /\ pending[t] = <<>>
                /\ Finish(t, "done")
-               /\ UNCHANGED <<nextId, loaded, names, tls, mutex, rc, freed, refs, pending>>
+               /\ UNCHANGED <<nextId, loaded, names, tls, mutex, rc, freed, refs, pending, scratch>>
 
 Step(t) == InferLock(t) \/ DrawAtomic(t) \/ DrawLoad(t) \/ DrawStore(t) \/ InferUnlock(t) \/ Use(t) \/ Clone(t)
-           \/ DropDec(t) \/ Release(t) \/ DropDone(t)
+           \/ DropDec(t) \/ Release(t) \/ DropDone(t) \/ CjetCopy(t) \/ CjetHash(t)
 Done == \A t \in Thread : todo[t] = <<>> /\ pc[t] = "idle"
 Next == (\E t \in Thread : Step(t)) \/ (Done /\ UNCHANGED vars)
 Spec == Init /\ [][Next]_vars /\ \A t \in Thread : WF_vars(Step(t))
